@@ -62,8 +62,74 @@ func errPolarity(fn *ssa.Function) []ErrMisuse {
 		inNil, inErr := only(nilSucc), only(errSucc)
 		// companions: other results of the call that produced e
 		var tuple ssa.Value
+		var tuples []ssa.Value // every fallible call whose error reaches this test
+		errOf := map[ssa.Value]bool{e: true}
 		if ex, isE := e.(*ssa.Extract); isE {
 			tuple = ex.Tuple
+			tuples = append(tuples, ex.Tuple)
+		} else if ph, isPhi := e.(*ssa.Phi); isPhi {
+			for _, ed := range ph.Edges {
+				if ex, isE := ed.(*ssa.Extract); isE && isErrorTyped(ex) {
+					tuples = append(tuples, ex.Tuple)
+					errOf[ex] = true
+				}
+			}
+		}
+		// use-before-check: a method is called (or deferred) on a companion result - possibly
+		// through an interface conversion or type assertion - at a point from which the error
+		// test is still ahead: on failure the companion is nil or a typed nil
+		if len(tuples) > 0 && len(nilSucc.Preds) == 1 {
+			derived := map[ssa.Value]bool{}
+			var grow func(v ssa.Value, d int)
+			grow = func(v ssa.Value, d int) {
+				if derived[v] || d == 0 || v.Referrers() == nil {
+					return
+				}
+				derived[v] = true
+				for _, u := range *v.Referrers() {
+					switch y := u.(type) {
+					case *ssa.Phi, *ssa.MakeInterface, *ssa.ChangeInterface, *ssa.ChangeType, *ssa.TypeAssert:
+						grow(y.(ssa.Value), d-1)
+					case *ssa.Extract:
+						if y.Index == 0 {
+							grow(y, d-1)
+						}
+					}
+				}
+			}
+			for _, tup := range tuples {
+				if tup.Referrers() == nil {
+					continue
+				}
+				for _, u := range *tup.Referrers() {
+					if ex, isE := u.(*ssa.Extract); isE && !errOf[ex] {
+						grow(ex, 6)
+					}
+				}
+			}
+			for _, blk := range fn.Blocks {
+				if nilSucc.Dominates(blk) || !reachableFrom(blk, nil)[b] && blk != b {
+					continue
+				}
+				for _, in := range blk.Instrs {
+					if blk == b && !domInstr(in, i) {
+						continue
+					}
+					c, isCall := in.(ssa.CallInstruction)
+					if !isCall {
+						continue
+					}
+					var recv ssa.Value
+					if c.Common().IsInvoke() {
+						recv = c.Common().Value
+					} else if callee := c.Common().StaticCallee(); callee != nil && callee.Signature.Recv() != nil && len(c.Common().Args) > 0 {
+						recv = c.Common().Args[0]
+					}
+					if recv != nil && derived[recv] {
+						out = append(out, ErrMisuse{in, "method called or deferred on the result of a fallible call before its error is checked", e})
+					}
+				}
+			}
 		}
 		for _, blk := range fn.Blocks {
 			for _, in := range blk.Instrs {
@@ -77,6 +143,21 @@ func errPolarity(fn *ssa.Function) []ErrMisuse {
 							_ = x // re-testing is harmless
 						case *ssa.Phi:
 						case *ssa.DebugRef:
+						case *ssa.Return:
+							// `return value, err` at the end of the success path hands the (nil) error
+							// back next to a computed value; a flipped check returns constants instead
+							computed := false
+							for _, res := range x.Results {
+								if res == e {
+									continue
+								}
+								if _, isK := res.(*ssa.Const); !isK {
+									computed = true
+								}
+							}
+							if !computed {
+								out = append(out, ErrMisuse{in, "error value returned, with no computed result, where it is known to be nil", e})
+							}
 						default:
 							out = append(out, ErrMisuse{in, "error value used where it is known to be nil", e})
 						}
@@ -125,10 +206,9 @@ var acceptedErrIdioms = map[string]struct {
 	n   int
 	why string
 }{
-	"(*lunar/engine/services/remedies.StrategyBasedThrottlingPlugin).OnRequest": {2, "`return action, err` at the end of the function: err is the (nil) result of the last fallible call, returned as the success value"},
-	"(*lunar/engine/streams.Stream).getFlows":                                   {1, "GetFlows returns the flows that did load together with the joined errors of those that did not; outside validation mode the partial result is used on purpose"},
-	"(*lunar/engine/streams/processors/queue.queueProcessor).checkIfAllowed":    {1, "`return false, err` under allowedErr != nil returns the (nil) error of the earlier GetQuota call: the failure of quota.Allowed is swallowed and the request is re-enqueued until its TTL. A wrong-variable defect, but the verdict still obeys C06 (not allowed, rejected at TTL); recorded in DESIGN.md 9.3 as an observation, not a finding"},
-	"(*lunar/engine/services/diagnoses.HARGeneratorPlugin).OnTransaction":       {1, "err is re-used as the accumulator of a later step"},
+	"(*lunar/engine/streams.Stream).getFlows":                                {1, "GetFlows returns the flows that did load together with the joined errors of those that did not; outside validation mode the partial result is used on purpose"},
+	"(*lunar/engine/streams/processors/queue.queueProcessor).checkIfAllowed": {1, "`return false, err` under allowedErr != nil returns the (nil) error of the earlier GetQuota call: the failure of quota.Allowed is swallowed and the request is re-enqueued until its TTL. A wrong-variable defect, but the verdict still obeys C06 (not allowed, rejected at TTL); recorded in DESIGN.md 9.3 as an observation, not a finding"},
+	"lunar/engine/failsafe.getHAProxyStats":                                  {1, "errors.Join(err, ...) with a nil err only drops the nil operand"},
 }
 
 // checkErrorPolarity applies the contradiction rule to every function an
